@@ -20,8 +20,21 @@ structure Spec where
   m : List (String × Option Expr) := []
   tbl : List (String × Option Expr) := []
 
-def Spec.defs (s : Spec) : Defs := { r := s.r, e := s.e, m := s.m }
-def Spec.store (s : Spec) : Store := { p := s.p, g := s.g }
+/-- default_model.rs:62-79 `load_section`: keys `x`, `x2`, `x3`, … are loaded until the first gap -/
+def contigKeys (sec : String) (have_ : String → Bool) : Nat → Nat → List String
+  | 0, _ => []
+  | fuel + 1, i =>
+    let k := if i = 1 then sec else sec ++ toString i
+    if have_ k then k :: contigKeys sec have_ fuel (i + 1) else []
+
+def contig {α : Type} (sec : String) (xs : List (String × α)) : List (String × α) :=
+  (contigKeys sec (fun k => (xs.lookup k).isSome) (xs.length + 1) 1).filterMap (fun k => (xs.lookup k).map (fun v => (k, v)))
+
+def contigDefs (sec : String) (xs : List PolDef) : List PolDef :=
+  (contigKeys sec (fun k => xs.any (·.key == k)) (xs.length + 1) 1).filterMap (fun k => xs.find? (·.key == k))
+
+def Spec.defs (s : Spec) : Defs := { r := contig "r" s.r, e := contig "e" s.e, m := contig "m" s.m }
+def Spec.store (s : Spec) : Store := { p := contigDefs "p" s.p, g := contigDefs "g" s.g }
 
 def dummyEnforcer : Enforcer :=
   { defs := ⟨[], [], []⟩, store := ⟨[], []⟩, adapter := AdapterSt.mk0 .null, rm := RoleMgr.new 10,
